@@ -142,6 +142,8 @@ def run_case(index, rng, tier):
         before = jb._origin
         held = {p.timestamp for p in jb._packets if p is not None} if before is not None else set()
         r = jb_add(packet)
+        if state.get("pre_origin") is not None and ((jb._origin - state["pre_origin"]) & 0xFFFF) < 0x8000:
+            state["pre_origin"] = None  # the buffer has caught up with where it was before the restart
         if before is not None and jb._origin == packet.sequence_number:
             behind = (before - packet.sequence_number) & 0xFFFF
             if 0 < behind < 0x8000:
@@ -149,6 +151,8 @@ def run_case(index, rng, tier):
                 cleared = sorted({((ts - c["ts_origin"]) & 0xFFFFFFFF) // 3000 for ts in held})
                 resets.append({"t": round(rig.now(), 3), "origin": before, "packet": packet.sequence_number, "behind": behind,
                                "frames_up_to": state["last_idx"], "cleared_frames": cleared})
+                if behind >= 100 and state.get("pre_origin") is None:
+                    state["pre_origin"] = before  # until the origin is back there the buffer works on the past
         return r
 
     jb.add = add
@@ -179,20 +183,33 @@ def run_case(index, rng, tier):
                     head = data[:12]
                     if cand:
                         idx = cand[0]
-                        new_pli = len(rig.plis) > pli_seen
+                        new_pli = rig.decoded_plis[checked - 1] > pli_seen  # PLIs on the wire at the moment of this hand-over
                         first = last_idx == -1
                         out.counters["partial_frames"] += 1
-                        if not (first or new_pli):
+                        in_past = any(r["behind"] >= 100 for r in resets) and (
+                            state.get("pre_origin") is not None or any(r["behind"] >= 100 and idx <= r["frames_up_to"] for r in resets))
+                        if not (first or new_pli) and in_past:
+                            r0 = [r for r in resets if r["behind"] >= 100][-1]
+                            out.counters["late_packet_restarts"] += 1
+                            out.fail("late-packet-restarts-jitter-buffer", f"decoder got the tail of frame {idx} as a second frame after one discard: the "
+                                     f"packet with sequence number {r0['packet']} arrived {r0['behind']} behind the jitter buffer's origin, the buffer "
+                                     f"started over there and is reassembling the past", d | {"restart": r0})
+                        elif not (first or new_pli):
                             out.fail("frame-tail-without-discard-signal", f"decoder got the last {len(data)} of {len(c['frames'][idx])} bytes of "
                                      f"frame {idx} although it is not the first frame and no PLI went out since the previous frame", d)
                     else:
                         out.fail("frame-corrupt-or-spliced", f"decoder got {len(data)} bytes starting {head!r} which are neither a sent frame "
                                  f"nor the tail of one (previous frame {last_idx})", d)
                         continue
-                pli_seen = len(rig.plis)
+                pli_seen = rig.decoded_plis[checked - 1]
                 # known finding: the replay that follows a restart triggered by a late packet >= 100 behind (the unchanged
                 # constant) can only concern frames that had already passed when the restart happened
-                late = [r for r in resets if r["behind"] >= 100 and idx <= r["frames_up_to"]]
+                big = [r for r in resets if r["behind"] >= 100]
+                late = [r for r in big if idx <= r["frames_up_to"]]
+                if not late and big and (state.get("pre_origin") is not None or idx in state.setdefault("in_the_past", set())):
+                    late = big[-1:]  # delivered (now or the first time) while the buffer was still behind its pre-restart origin
+                if state.get("pre_origin") is not None:
+                    state.setdefault("in_the_past", set()).add(idx)
                 if idx in seen or idx < last_idx:
                     how = "twice" if idx in seen else f"after frame {last_idx}"
                     if late:
